@@ -25,7 +25,7 @@ def gen_cases(ctx):
         for pol in ('ro', 'deny'):
             pdu = srv.gen_pdu(r, 'tcp', fc, big_ok=False)
             cases.append(('tcp', (srv.simple_unit(1),), (pol, srv.gen_role(r)), ((5, 1, pdu),)))
-    n = 1000 if ctx.quick() else 12000
+    n = 2200 if ctx.quick() else 12000
     for _ in range(n):
         link = 'tcp' if r.random() < 0.8 else 'rtu'
         cases.append(srv.gen_session(r, link, auth=srv.gen_auth(r), big_ok=(r.random() < 0.3), raw=0.08))
@@ -33,12 +33,7 @@ def gen_cases(ctx):
 
 
 def run(ctx):
-    ctx.translate(['Consts.v', 'AuthzTable.v'])
-    models_ok = ctx.build_models(srv.MODULES)
-    ctx.prove()
-    if ctx.tier == 'thorough':
-        ctx.coqchk()
-    if not ctx.build_harness() or not models_ok:
+    if not srv.prepare(ctx):
         return
     if ctx.replay and 'cases' in ctx.replay:
         cases = [srv.case_from_json(c) for c in ctx.replay['cases']]
@@ -47,14 +42,14 @@ def run(ctx):
     impl, both, n_spec, n_model = srv.compare(ctx, cases, 'all', 'authorization', 'authorization + handler log and replies')
     for pol in ('hash', 'ro', 'deny'):
         idx = [k for k, c in enumerate(cases) if c[2] is not None and c[2][0] == pol]
-        bad = [k for k in idx if impl[k] != both[k][1] or impl[k] != both[k][0]]
+        bad = [k for k in idx if srv.differs(impl[k], both[k], 'all')]
         ctx.oblige(f'correspondence:interleaved-log-and-replies:policy={pol}', not bad, f'{len(bad)} of {len(idx)} sessions differ')
     # metamorphic, implementation only: an allow-everything policy behaves like no authorization at all
     allow = [c for c in cases if c[2] is not None and c[2][0] == 'hash' and c[2][3] == 100]
     if allow:
         a = srv.run_impl(ctx, allow)
         b = srv.run_impl(ctx, [(c[0], c[1], None, c[3]) for c in allow])
-        bad = [k for k in range(len(allow)) if srv.observe(a[k], 'replies') != srv.observe(b[k], 'replies') or srv.observe(a[k], 'calls') != srv.observe(b[k], 'calls')]
+        bad = [k for k in range(len(allow)) if srv.observe(a[k], 'replies') != srv.observe(b[k], 'replies') or srv.expand_runs(srv.observe(a[k], 'calls')[0]) != srv.expand_runs(srv.observe(b[k], 'calls')[0])]
         ctx.oblige('allow-all-policy-equals-no-authorization', not bad, f'{len(bad)} of {len(allow)}')
         if bad:
             c = allow[bad[0]]
